@@ -61,6 +61,12 @@ def sp_end(eng, st, n):
     return VInt(_end(n.t))
 
 
+@specfn('G')
+def sp_G(eng, st):
+    """the ghost input text"""
+    return VStr(G)
+
+
 @specfn('gslice')
 def sp_gslice(eng, st, a, b):
     return VStr(z3.SubString(G, a.t, b.t - a.t))
